@@ -25,6 +25,9 @@ const (
 	tBool
 	tValue
 	tNat
+	tStr
+	tChar
+	tOptInt
 	tOther
 )
 
@@ -32,11 +35,12 @@ type trEnv struct {
 	p      *Pkg
 	vars   map[string]ty
 	consts map[string]string // Go constant name -> Lean Int term
-	ret    string            // "plain" | "okpair" | "panicopt"
+	ret    string            // "plain" | "okpair" | "panicopt" | "nat" | "valerr"
+	errNil string            // inside a `v, err := …` match arm: the Lean truth value of `err == nil`
 }
 
 func (e *trEnv) clone() *trEnv {
-	n := &trEnv{p: e.p, vars: map[string]ty{}, consts: e.consts, ret: e.ret}
+	n := &trEnv{p: e.p, vars: map[string]ty{}, consts: e.consts, ret: e.ret, errNil: e.errNil}
 	for k, v := range e.vars {
 		n.vars[k] = v
 	}
@@ -62,6 +66,15 @@ func (e *trEnv) expr(x ast.Expr) (string, ty, error) {
 		s, t, err := e.expr(v.X)
 		return "(" + s + ")", t, err
 	case *ast.BasicLit:
+		if v.Kind == token.CHAR {
+			r := []rune(strings.Trim(v.Value, "'"))
+			if len(r) == 1 {
+				return fmt.Sprintf("(0x%X : Nat)", r[0]), tChar, nil
+			}
+		}
+		if v.Kind == token.STRING && v.Value == `""` {
+			return "([] : List Nat)", tStr, nil
+		}
 		if v.Kind == token.INT {
 			if e.ret == "nat" {
 				return "(" + v.Value + " : Nat)", tNat, nil
@@ -100,7 +113,19 @@ func (e *trEnv) expr(x ast.Expr) (string, ty, error) {
 				return "(-" + s + ")", tInt, nil
 			}
 		}
+	case *ast.SliceExpr:
+		if v.High == nil && v.Max == nil && v.Low != nil {
+			x, tx, err := e.expr(v.X)
+			if lit, ok := v.Low.(*ast.BasicLit); ok && err == nil && tx == tStr && lit.Kind == token.INT {
+				return "(" + x + ".drop " + lit.Value + ")", tStr, nil
+			}
+		}
 	case *ast.IndexExpr:
+		if x, tx, err := e.expr(v.X); err == nil && tx == tStr {
+			if lit, ok := v.Index.(*ast.BasicLit); ok && lit.Kind == token.INT {
+				return "(" + x + ".getD " + lit.Value + " 0)", tChar, nil // guarded by a length test in the source
+			}
+		}
 		// intCache[idx] = valueInt(idx - 256)   (value.go init: `intCache[i] = valueInt(i - 256)`, pinned by intCache_tie)
 		if e.text(v.X) == "intCache" {
 			s, t, err := e.expr(v.Index)
@@ -161,6 +186,12 @@ func (e *trEnv) expr(x ast.Expr) (string, ty, error) {
 					return "eqTrunc " + id.Name, tBool, nil
 				}
 			}
+			if e.text(v.X) == "err" && e.text(v.Y) == "nil" && e.errNil != "" {
+				if v.Op == token.EQL {
+					return e.errNil, tBool, nil
+				}
+				return "!" + e.errNil, tBool, nil
+			}
 			a, ta, err := e.expr(v.X)
 			if err != nil {
 				return "", tOther, err
@@ -168,6 +199,12 @@ func (e *trEnv) expr(x ast.Expr) (string, ty, error) {
 			b, tb, err := e.expr(v.Y)
 			if err != nil {
 				return "", tOther, err
+			}
+			if ta == tChar && tb == tChar && v.Op == token.EQL {
+				return "decide (" + a + " = " + b + ")", tBool, nil
+			}
+			if ta == tStr && tb == tStr && v.Op == token.EQL {
+				return "decide (" + a + " = " + b + ")", tBool, nil
 			}
 			if ta == tFloat && tb == tInt {
 				// IEEE comparison of a float64 variable with an integer-valued constant (converted to float64 by Go)
@@ -213,6 +250,12 @@ func (e *trEnv) expr(x ast.Expr) (string, ty, error) {
 		}
 		one := func(t ty) bool { return len(args) == 1 && tys[0] == t }
 		switch {
+		case fn == "len" && one(tStr):
+			return "(" + args[0] + ".length : Int)", tInt, nil
+		case fn == "radixPrefix" && one(tStr):
+			return "(radixPrefix " + args[0] + " : Int)", tInt, nil
+		case fn == "strconv.ParseInt" && len(args) == 3 && tys[0] == tStr && tys[1] == tInt && args[2] == "(64 : Int)":
+			return "StrNum.goParseInt " + args[0] + " (" + args[1] + ").toNat", tOptInt, nil
 		case fn == "math.Signbit" && one(tFloat):
 			return "signbit " + args[0], tBool, nil
 		case fn == "math.IsNaN" && one(tFloat):
@@ -223,6 +266,12 @@ func (e *trEnv) expr(x ast.Expr) (string, ty, error) {
 			return "toInt64 " + args[0], tInt, nil
 		case (fn == "int64" || fn == "int") && one(tInt):
 			return args[0], tInt, nil
+		case (fn == "int8" || fn == "int16" || fn == "int32") && one(tInt): // Go's truncating integer conversion
+			return "wrapS " + strings.TrimPrefix(fn, "int") + " " + args[0], tInt, nil
+		case (fn == "uint8" || fn == "uint16" || fn == "uint32") && one(tInt):
+			return "wrapU " + strings.TrimPrefix(fn, "uint") + " " + args[0], tInt, nil
+		case fn == "float64ToInt64Mod" && one(tFloat):
+			return "(C05.float64ToInt64Mod " + args[0] + ")", tInt, nil
 		case fn == "float64" && one(tFloat):
 			return args[0], tFloat, nil
 		case fn == "math.Float64bits" && one(tFloat):
@@ -255,6 +304,30 @@ func (e *trEnv) retExpr(r *ast.ReturnStmt) (string, error) {
 			if ok == "true" {
 				s, _, err := e.expr(r.Results[0])
 				return "some (" + s + ")", err
+			}
+		}
+	case "valerr":
+		if len(r.Results) == 1 { // return strconv.ParseInt(…)
+			s, t, err := e.expr(r.Results[0])
+			if err == nil && t == tOptInt {
+				return s, nil
+			}
+		}
+		if len(r.Results) == 2 {
+			switch e.text(r.Results[1]) {
+			case "nil":
+				s, _, err := e.expr(r.Results[0])
+				return "some (" + s + ")", err
+			case "strconv.ErrSyntax":
+				return "none", nil
+			case "err":
+				if e.errNil == "true" {
+					s, _, err := e.expr(r.Results[0])
+					return "some (" + s + ")", err
+				}
+				if e.errNil == "false" {
+					return "none", nil
+				}
 			}
 		}
 	case "panicopt":
@@ -374,6 +447,32 @@ func (e *trEnv) stmts(list []ast.Stmt, ind string) (string, error) {
 			}
 		}
 	case *ast.AssignStmt:
+		// i, err := strconv.ParseInt(…): match on the Option result; `err == nil` is true / false in the two arms
+		if len(v.Lhs) == 2 && len(v.Rhs) == 1 && v.Tok == token.DEFINE && e.text(v.Lhs[1]) == "err" {
+			r, t, err := e.expr(v.Rhs[0])
+			if err == nil && t == tOptInt {
+				okEnv := e.clone()
+				okEnv.vars[e.text(v.Lhs[0])] = tInt
+				okEnv.errNil = "true"
+				a, err := okEnv.stmts(rest, ind+"    ")
+				if err != nil {
+					return "", err
+				}
+				erEnv := e.clone()
+				erEnv.vars[e.text(v.Lhs[0])] = tInt
+				erEnv.errNil = "false"
+				b, err := erEnv.stmts(rest, ind+"    ")
+				if err != nil {
+					return "", err
+				}
+				// in the error arm Go's ParseInt returns some number for the value; it is never used when err != nil
+				return fmt.Sprintf("match %s with\n%s| some %s =>\n%s    %s\n%s| none =>\n%s    let %s : Int := 0\n%s    %s", r, ind, e.text(v.Lhs[0]), ind, a, ind, ind, e.text(v.Lhs[0]), ind, b), nil
+			}
+		}
+		// v = v.ToNumber(): the identity on a Number value
+		if e.text(v) == "v = v.ToNumber()" && e.vars["v"] == tValue {
+			return e.stmts(rest, ind)
+		}
 		// x := e
 		if len(v.Lhs) == 1 && len(v.Rhs) == 1 && v.Tok == token.DEFINE {
 			r, t, err := e.expr(v.Rhs[0])
@@ -394,6 +493,31 @@ func (e *trEnv) stmts(list []ast.Stmt, ind string) (string, error) {
 			}
 		}
 	case *ast.SwitchStmt:
+		if v.Init == nil && v.Tag != nil { // switch ss[1] { case 'x', 'X': return 16 … }
+			tag, tt, err := e.expr(v.Tag)
+			if err != nil || tt != tChar {
+				return "", fmt.Errorf("switch tag %q", e.text(v.Tag))
+			}
+			var b bytes.Buffer
+			for _, c := range v.Body.List {
+				cc := c.(*ast.CaseClause)
+				var alts []string
+				for _, x := range cc.List {
+					s, t, err := e.expr(x)
+					if err != nil || t != tChar {
+						return "", fmt.Errorf("switch case %q", e.text(x))
+					}
+					alts = append(alts, "decide ("+tag+" = "+s+")")
+				}
+				body, err := e.stmts(append(append([]ast.Stmt{}, cc.Body...), rest...), ind+"  ")
+				if err != nil {
+					return "", err
+				}
+				fmt.Fprintf(&b, "if (%s) then %s\n%selse ", strings.Join(alts, " || "), body, ind)
+			}
+			r, err := e.stmts(rest, ind)
+			return b.String() + r, err
+		}
 		if v.Init == nil && v.Tag == nil {
 			var b bytes.Buffer
 			for _, c := range v.Body.List {
@@ -421,6 +545,32 @@ func (e *trEnv) stmts(list []ast.Stmt, ind string) (string, error) {
 			as, ok := v.Init.(*ast.AssignStmt)
 			if !ok || as.Tok != token.DEFINE {
 				return "", fmt.Errorf("untranslatable if-init %q", e.text(v.Init))
+			}
+			// `i, ok := v.(valueInt); ok`  /  `f, ok := v.(valueFloat); ok`
+			if len(as.Lhs) == 2 && len(as.Rhs) == 1 && e.text(v.Cond) == e.text(as.Lhs[1]) && v.Else == nil {
+				if ta, okt := as.Rhs[0].(*ast.TypeAssertExpr); okt && ta.Type != nil {
+					subj, st, err := e.expr(ta.X)
+					tn := e.text(ta.Type)
+					if err == nil && st == tValue && (tn == "valueInt" || tn == "valueFloat") {
+						n := e.clone()
+						name := e.text(as.Lhs[0])
+						ctor, other := "Num.int", "Num.flt"
+						n.vars[name] = tInt
+						if tn == "valueFloat" {
+							ctor, other = "Num.flt", "Num.int"
+							n.vars[name] = tFloat
+						}
+						th, err := n.stmts(append(append([]ast.Stmt{}, v.Body.List...), rest...), ind+"    ")
+						if err != nil {
+							return "", err
+						}
+						r, err := e.stmts(rest, ind+"    ")
+						if err != nil {
+							return "", err
+						}
+						return fmt.Sprintf("match %s with\n%s| %s %s =>\n%s    %s\n%s| %s _ =>\n%s    %s", subj, ind, ctor, name, ind, th, ind, other, ind, r), nil
+					}
+				}
 			}
 			// `i, ok := floatToInt(f); ok`
 			if len(as.Lhs) == 2 && len(as.Rhs) == 1 && e.text(v.Cond) == e.text(as.Lhs[1]) {
@@ -498,7 +648,7 @@ func (e *trEnv) stmts(list []ast.Stmt, ind string) (string, error) {
 			}
 			return fmt.Sprintf("%sif %s then\n%s  %s\n%selse\n%s  %s", prefix, cond, ind, th, ind, ind, el), nil
 		}
-		th, err := env.stmts(v.Body.List, ind+"  ")
+		th, err := env.stmts(append(append([]ast.Stmt{}, v.Body.List...), rest...), ind+"  ")
 		if err != nil {
 			// the body may be `if …{panic}; return x` etc.: already handled by stmts; propagate
 			return "", err
@@ -532,6 +682,14 @@ func translateDecisions(p *Pkg) (string, error) {
 		{"", "toLength", "toLength", [][2]string{{"i", "Int"}}, map[string]ty{"i": tInt}, "plain", "Int", "i := v.ToInteger()"},
 		{"Runtime", "toIndex", "toIndex", [][2]string{{"num", "Int"}}, map[string]ty{"num": tInt}, "panicopt", "Option Int", "num := v.ToInteger()"},
 		{"", "float64ToInt64Mod", "float64ToInt64Mod", [][2]string{{"f", "F64"}}, map[string]ty{"f": tFloat}, "plain", "Int", ""},
+		{"", "toInt8", "toInt8", [][2]string{{"v", "Num"}}, map[string]ty{"v": tValue}, "plain", "Int", ""},
+		{"", "toUint8", "toUint8", [][2]string{{"v", "Num"}}, map[string]ty{"v": tValue}, "plain", "Int", ""},
+		{"", "toInt16", "toInt16", [][2]string{{"v", "Num"}}, map[string]ty{"v": tValue}, "plain", "Int", ""},
+		{"", "toUint16", "toUint16", [][2]string{{"v", "Num"}}, map[string]ty{"v": tValue}, "plain", "Int", ""},
+		{"", "toInt32", "toInt32", [][2]string{{"v", "Num"}}, map[string]ty{"v": tValue}, "plain", "Int", ""},
+		{"", "toUint32", "toUint32", [][2]string{{"v", "Num"}}, map[string]ty{"v": tValue}, "plain", "Int", ""},
+		{"", "radixPrefix", "radixPrefix", [][2]string{{"ss", "List Nat"}}, map[string]ty{"ss": tStr}, "plain", "Int", ""},
+		{"", "stringToInt", "stringToInt", [][2]string{{"ss", "List Nat"}}, map[string]ty{"ss": tStr}, "valerr", "Option Int", ""},
 		{"valueFloat", "SameAs", "floatSameAs", [][2]string{{"f", "F64"}, {"other", "Num"}}, map[string]ty{"f": tFloat, "other": tValue}, "plain", "Bool", ""},
 		{"valueInt", "SameAs", "intSameAs", [][2]string{{"i", "Int"}, {"other", "Num"}}, map[string]ty{"i": tInt, "other": tValue}, "plain", "Bool", ""},
 		{"valueFloat", "StrictEquals", "floatStrictEquals", [][2]string{{"f", "F64"}, {"other", "Num"}}, map[string]ty{"f": tFloat, "other": tValue}, "plain", "Bool", ""},
